@@ -103,6 +103,11 @@ def o_roundtrip(rep, b, month):
     ok_paths = 0
     for k, r in enumerate(res):
         if r.exc is not None:
+            from symx.core import Unsupported
+
+            if isinstance(r.exc, (Unsupported, TypeError, AttributeError, NameError)):
+                rep.error(f"exception{tag}#{k}", repr(r.exc))
+                continue
             # the real code raised on a feasible path (e.g. ValueError from datetime()): a violation candidate
             m = solve(r.constraints, 30000)
             if m.status != "sat":
